@@ -342,6 +342,7 @@ fn truncated_logs() -> Vec<Case> {
                     arena_prep: 0,
                     big_chunk: false,
                     blocks: vec![],
+                    two_arenas: false,
                 },
                 max_size: None,
                 limit: None,
